@@ -1292,3 +1292,34 @@ func (c *Check) restartAfterHandler(rule string) {
 	}
 	c.floor(rule, n, 1, "hold-timer restarts in the session loop")
 }
+
+
+// optionsApplied: a PeerOption's apply runs the function it was built with
+// (an option that is accepted and silently not applied leaves the default).
+func (c *Check) optionsApplied(rule string) {
+	p := c.P
+	n := 0
+	for _, name := range sortedKeys(p.Funcs) {
+		fn := p.Funcs[name]
+		if fn.Parent() != nil || fn.Name() != "apply" || fn.Signature.Recv() == nil || len(fn.Params) != 2 {
+			continue
+		}
+		n++
+		a := NewAnalysis(p, fn)
+		a.Run()
+		ok := len(a.Returns) > 0
+		for _, r := range a.Returns {
+			called := false
+			for ev := range r.State.must {
+				if strings.HasPrefix(ev, "call:dyn:func(") {
+					called = true
+				}
+			}
+			if !called {
+				ok = false
+			}
+		}
+		c.require(ok, rule, name, "runs its function", p.Pos(fn.Pos()), "apply calls the option's function on the options it is given, on every path")
+	}
+	c.floor(rule, n, 1, "PeerOption implementations")
+}
